@@ -38,7 +38,19 @@ def cases(seed, tier):
                 scripts[k] = [(x + "+" + str(rng.choice([1, 2]))) if x == "S" and rng.random() < 0.15 else x for x in seq]
         ticks = [{"step_ns": rng.choice(STEPS)} for _ in range(nticks)]
         cid = "C05-%d-%d" % (seed, i)
-        yield core.Case(cid, [c02.mk_scn(cid, {"rulesets": rulesets}, scripts, ticks)], {"rulesets": nrs, "ticks": nticks})
+        extra = None
+        if i % 4 == 3:
+            # "per matching cgroup, for ruleset-cgroup rulesets": the same window per instance
+            cg = {"/": W.root_cgroup()}
+            for nm in ("wl/x1", "wl/x2", "wl/y"):
+                cg[nm] = W.cgroup()
+            rulesets[0]["cgroup"] = "wl/x*"
+            for a in rulesets[0]["actions"]:
+                for u in ("wl/x1", "wl/x2"):
+                    if rng.random() < 0.5:
+                        scripts[a["args"]["id"] + "@" + u] = [rng.choice(["C", "S", "S", "A", "S+1"]) for _ in range(nticks * 2)]
+            extra = {"cgroups": cg}
+        yield core.Case(cid, [c02.mk_scn(cid, {"rulesets": rulesets}, scripts, ticks, extra)], {"rulesets": nrs, "ticks": nticks})
 
 
 def real_cases(seed, n):
